@@ -4,6 +4,7 @@ CONSTANTS
   RSizes = {}
   TsigLens = {}
   Limits = {}
+  Bufs = {}
   Variant = "impl"
 SPECIFICATION TSpec
 INVARIANT Report
